@@ -20,16 +20,23 @@ package planar
 
 // rayIntersect: a point reported on the segment is not also counted as a crossing
 //@ func rayIntersect(p, s, e) (intersects, on)
-//@   pure
+//@   function
 //@   ensures on ==> !intersects
 //@   ensures nonanP(p) && nonanP(s) && nonanP(e) && ((p[0] == s[0] && p[1] == s[1]) || (p[0] == e[0] && p[1] == e[1])) ==> on
 //@   ensures nonanP(p) && nonanP(s) && nonanP(e) && s[0] == e[0] && p[0] == s[0] && ((s[1] <= p[1] && p[1] <= e[1]) || (e[1] <= p[1] && p[1] <= s[1])) ==> on
 
 // RingContains is a pure, deterministic function of the ring's vertices and the point (`function`):
-// the polygon and multi-polygon tests are stated in terms of it.
+// the polygon and multi-polygon tests are stated in terms of it. When it answers true the point is on
+// one of the n edges of the IMPLICITLY CLOSED ring (edge n-1 joins the last vertex to the first), or
+// the ray crosses an odd number of those n edges (even-odd rule, crossing = rayIntersect's answer)
+//@ spec xpar(r orb.Ring, p orb.Point, n int) bool = ite(n <= 0, false, xpar(r, p, n-1) != rayIntersect(p, r[n-1], r[n]))
+//@ spec anyOn(r orb.Ring, p orb.Point, n int) bool = exists k :: 0 <= k && k < n && rayIntersect__1(p, r[k], r[k+1])
+//@ spec evenOdd(r orb.Ring, p orb.Point) bool = rayIntersect__1(p, r[0], r[len(r)-1]) || anyOn(r, p, len(r)-1) || (rayIntersect(p, r[0], r[len(r)-1]) != xpar(r, p, len(r)-1))
 //@ func RingContains(r, point)
 //@   function
 //@   requires !isnan(point[0]) && !isnan(point[1])
+//@   ensures result ==> len(r) >= 1 && evenOdd(r, point)
+//@   loop 1: invariant 0 <= i && i <= len(r) - 1 && len(r) >= 1 && !rayIntersect__1(point, r[0], r[len(r)-1]) && (forall k :: 0 <= k && k < i ==> !rayIntersect__1(point, r[k], r[k+1])) && c == (rayIntersect(point, r[0], r[len(r)-1]) != xpar(r, point, i))
 
 //@ func PolygonContains(p, point)
 //@   function
